@@ -727,6 +727,12 @@ def flush_one(run, what, case, o, impl):
                 run.mismatch(dict(case, op="c18_tree"), loaded, o)
             return True
         parts = o.split(" ")
+        if len(parts) == 3 and (parts[2] == "1") == safe and not safe and parts[1] != loaded:
+            # an UNSAFE value (an ndarray / object nested inside, non-str keys): HOW the writer renders the part json cannot
+            # encode (its str() today; nested lists would be as good) is incidental - the property speaks about values that
+            # survive: recorded, not judged. Model and harness still have to agree that the value is unsafe.
+            run.count("tree-value:written-form-of-unsafe-value-differs(not judged)")
+            return True
         if len(parts) != 3 or parts[1] != loaded or (parts[2] == "1") != safe or parts[0].replace("N", "n") != parts[1]:
             run.mismatch(dict(case, op="c18_tree"), [loaded, safe], o)
         return True
@@ -735,6 +741,10 @@ def flush_one(run, what, case, o, impl):
         # options such as sort_keys and is not part of the property: recorded, not judged
         if (o == "err") != (impl == "err") and not impl[:1].isupper():
             run.count("tree-object:writability-differs(unsafe field, not judged)")
+            return True
+        if o != impl and o != "err" and not o[:1].isupper() and impl != "err" and not impl[:1].isupper():
+            # both wrote and loaded the object; it holds an UNSAFE field: the written form of that field is incidental
+            run.count("tree-object:written-form-of-unsafe-field-differs(not judged)")
             return True
         what = "eq:" + what[4:]
     if what.startswith("eq:") or what.startswith("eq?:"):
